@@ -8,6 +8,7 @@ def c09_stats(cases, model):
     late = collections.Counter()      # how a creation that was answered `ok` ended
     racing = collections.Counter()    # what happened between the request and the answer
     open_at_state = 0
+    stress = collections.Counter()
     for c in cases:
         lens.append(len(c["ops"]))
         for t in c.get("tags") or ["-"]:
@@ -31,15 +32,20 @@ def c09_stats(cases, model):
                             racing[b] += 1
             if kind == "state" and not i.startswith("-"):
                 open_at_state += 1
+            if kind == "stress":
+                stress["runs"] += 1
+                body = i.split("open=")[1].split()[0] if "open=" in i else "-"
+                stress["open_objects_at_quiescence"] += 0 if body == "-" else len(body.split(","))
+                stress["sessions_closed_midway"] += i.count("=c:")
     return dict(verdicts=_verdict_stats(cases, model), ops=dict(ops), impl_outcomes=dict(outs), tags=dict(tags),
                 answered_ok=dict(late), actions_between_request_and_answer=dict(racing),
-                observations_with_open_objects=open_at_state,
+                observations_with_open_objects=open_at_state, stress=dict(stress),
                 max_case_len=max(lens or [0]), mean_case_len=round(sum(lens) / max(1, len(lens)), 1))
 
 
 def c09_nontrivial(c, ms):
     impl = c.get("impl") or []
-    return any(i == "stored" or i.startswith("closed ") for i in impl)
+    return any(i == "stored" or i.startswith("closed ") or (i.startswith("stress ") and "open=-" not in i) for i in impl)
 
 
 _T = "SigModel.Mcu."
@@ -55,15 +61,22 @@ CONFIG = dict(
         "C09_early_sweep_orphan", "C09_early_sweep_orphan_code"]],
     generated=["Mcu"],
     harness=dict(pkg="signaling", test="TestVerifC09", go="go1.26"),
+    # real-concurrency variant of the same harness files, built with the race detector: one `stress` op per case,
+    # not predictable by the model (canon), judged by the spec on the state at quiescence
+    extra_harness=[dict(pkg="signaling", test="TestVerifC09Stress", go="go1.26", race=True)],
+    canon=lambda s: "stress" if s.startswith("stress ") else s,
     stats=c09_stats,
     nontrivial=c09_nontrivial,
     rule="real ClientSessions in a real Hub with a gate-controlled fake Mcu inside a testing/synctest bubble; cases = "
          "(a) the witness schedules of the repaired defect, (b) all orders of <= 4 concurrent threads "
          "(1-2 creations = request + media-server answer ok/fail/timeout, 0-2 of leave / leave call / close / "
          "revoke / switch room; thorough: every order, quick: PRNG sample), (c) PRNG histories over 3 sessions, "
-         "2 rooms, 3 stream types, 12 permission sets with interspersed observations, (d) malformed lines; "
+         "2 rooms, 3 stream types, 12 permission sets with interspersed observations, (d) malformed lines, (e) stress "
+         "runs under the race detector (one client goroutine per session + 2-8 backend goroutines, 5-40 actions "
+         "each, the fake media server answering on its own), (f) the real Janus client against the repository's "
+         "test gateway (publisher + subscriber created and closed); "
          "a case is non-trivial if the media server created at least one object (answered ok: stored or closed "
-         "again); distinct = distinct op lists",
+         "again, or a stress run that ended with open objects); distinct = distinct op lists",
     trusted_base=[
         "testing/synctest (go1.26): synctest.Wait() is taken as 'every goroutine of the server is blocked or done' "
         "(the harness' quiescence point)",
